@@ -269,6 +269,11 @@ class Entity(Block):
 
                 if _entity_instantiation_handler is not None:
                     _entity_instantiation_handler(info)
+            except BaseException:
+                # the architecture was rejected, do not keep the partially
+                # constructed instance for later compilations of this entity
+                info.instantiated = None
+                raise
             finally:
                 assert len(_block_stack) == 1
                 _block_stack = prev_block_stack
